@@ -24,7 +24,8 @@ COMPONENTS = {"real": ["yowsup.layers.interface (YowInterfaceLayer._sendIq / pro
               "stub": ["server double holding and re-ordering replies", "reference registry model", "scheduler"]}
 ASSUMPTIONS = ["six 1.17 shim", "actor assumption", "all optional modules are present (the module dimension is C06's)"]
 BUDGET = {"quick": (800, 150), "thorough": (150000, 2700)}
-FAULTS = ["srv_reply_reordered", "srv_dup_reply", "srv_unknown_id_reply", "srv_error_reply", "srv_nonreply_live_id"]
+FAULTS = ["srv_reply_reordered", "srv_dup_reply", "srv_unknown_id_reply", "srv_error_reply", "srv_nonreply_live_id",
+          "srv_reply_from_server", "srv_reply_from_domain", "srv_reply_from_other"]
 PROBES = ["out_of_order_replies", "error_callback", "success_callback", "internal_key_fetch", "internal_group_info",
           "dup_ignored", "unknown_ignored", "retry_from_error_callback"]
 SHRINK = ["rounds"]
